@@ -14,6 +14,7 @@ import hashlib
 import sys
 import types
 
+import math
 import numpy as np
 
 EVENTS = []          # events of the current case
@@ -251,7 +252,12 @@ def _expected_pol(pol):
         p = np.append(p, 0.0)
     if p.shape != (3,):
         return None
-    return p / np.sqrt(np.sum(p ** 2))
+    # (scaled first: the squares of very large / very small components leave the range of a double)
+    m = float(np.max(np.abs(p)))
+    if not (m > 0 and np.isfinite(m)):
+        return None
+    q = p / m
+    return q / math.sqrt(float(np.sum(q ** 2)))
 
 
 def _optics_post(am, result, want_pol=True):
